@@ -259,9 +259,22 @@ Definition fill_stat (n : node) (name : str) : finfo :=
 Definition dir_mode (os : ostype) : N := match os with Linux => MODE_DIR | Windows => N.lor MODE_DIR 511 end.
 Definition file_mode (os : ostype) : N := match os with Linux => 0%N | Windows => 438%N end.
 
-Definition new_meta (v : view) (type_bits perm : N) : meta :=
+(* the meta data of a node; used for the directory a node is created in (the callers have checked that it exists) *)
+Definition meta_of (h : heap) (i : nat) : meta :=
+  match get h i with Some n => node_meta n | None => {| m_mode := 0; m_uid := 0; m_gid := 0 |} end.
+
+(* newGid: the group of the directory if its set-group-ID bit is set, else the group of the current user *)
+Definition new_gid (v : view) (pm : meta) : Z :=
+  if has (m_mode pm) MODE_SETGID then m_gid pm else us_gid (v_user v).
+
+Definition new_meta (v : view) (pm : meta) (type_bits perm : N) : meta :=
   {| m_mode := N.lor type_bits (N.ldiff (N.land perm FILE_MODE_MASK) (v_umask v));
-     m_uid := us_uid (v_user v); m_gid := us_gid (v_user v) |}.
+     m_uid := us_uid (v_user v); m_gid := new_gid v pm |}.
+
+(* createDir: a new directory also inherits the set-group-ID bit of the directory it is created in *)
+Definition new_dir_meta (v : view) (pm : meta) (perm : N) : meta :=
+  let m := new_meta v pm (dir_mode (v_os v)) (N.land perm (511 + MODE_STICKY)) in
+  {| m_mode := N.lor (m_mode m) (N.land (m_mode pm) MODE_SETGID); m_uid := m_uid m; m_gid := m_gid m |}.
 
 (* parent.addChild(name, c) *)
 Definition add_child (h : heap) (parent : nat) (name : str) (c : nat) : heap :=
@@ -290,18 +303,19 @@ Definition delete_node (h : heap) (c : nat) : heap :=
 (* createDir / createFile / createSymlink: allocate at the end, link into parent *)
 Definition create_dir (s : fsys) (v : view) (parent : nat) (name : str) (perm : N) : fsys * nat :=
   let c := length (f_heap s) in
-  let h1 := f_heap s ++ [NDir [] (new_meta v (dir_mode (v_os v)) (N.land perm (511 + MODE_STICKY)))] in
+  let h1 := f_heap s ++ [NDir [] (new_dir_meta v (meta_of (f_heap s) parent) perm)] in
   ({| f_heap := add_child h1 parent name c; f_last_id := f_last_id s; f_vols := f_vols s |}, c).
 
 Definition create_file (s : fsys) (v : view) (parent : nat) (name : str) (perm : N) : fsys * nat :=
   let c := length (f_heap s) in
   let id := (f_last_id s + 1)%N in
-  let h1 := f_heap s ++ [NFile [] 1 id (new_meta v (file_mode (v_os v)) perm)] in
+  let h1 := f_heap s ++ [NFile [] 1 id (new_meta v (meta_of (f_heap s) parent) (file_mode (v_os v)) perm)] in
   ({| f_heap := add_child h1 parent name c; f_last_id := id; f_vols := f_vols s |}, c).
 
 Definition create_symlink (s : fsys) (v : view) (parent : nat) (name link : str) : fsys :=
   let c := length (f_heap s) in
-  let m := {| m_mode := N.lor MODE_SYMLINK 511; m_uid := us_uid (v_user v); m_gid := us_gid (v_user v) |} in
+  let m := {| m_mode := N.lor MODE_SYMLINK 511; m_uid := us_uid (v_user v);
+              m_gid := new_gid v (meta_of (f_heap s) parent) |} in
   let h1 := f_heap s ++ [NSym link m] in
   {| f_heap := add_child h1 parent name c; f_last_id := f_last_id s; f_vols := f_vols s |}.
 
